@@ -332,6 +332,10 @@ func cmdCheck(args []string) int {
 	passedFns := map[string]bool{}
 	knownPrinted := map[string]bool{}
 	var violLines []string
+	// contradictory assumptions: an error of the machinery - unless the same function has a failed obligation,
+	// in which case the contradiction is the expected consequence of assuming a loop invariant / callee
+	// precondition that was just shown not to hold (the failed obligation is the report)
+	vacuousFns := map[string][]string{}
 	handle := func(fnKey string, inBaseline bool, o *Obligation) {
 		r := o.Result
 		rep := oblReport{Name: o.Name, Family: o.Family, Status: r.Status, Solver: r.Solver, Seconds: r.Seconds, Pos: o.Pos, Detail: o.Detail, Confirm: r.Confirm}
@@ -340,8 +344,7 @@ func cmdCheck(args []string) int {
 			// passes unless the background+requires is refuted
 			if r.Status == "unsat" {
 				rep.Status = "VACUOUS"
-				fmt.Printf("ERROR vacuous-precondition %s\n", o.Name)
-				exit = 3
+				vacuousFns[fnKey] = append(vacuousFns[fnKey], o.Name)
 			} else {
 				rep.Status = "nonvacuous(" + r.Status + ")"
 			}
@@ -479,6 +482,16 @@ func cmdCheck(args []string) int {
 		os.WriteFile(rp, b, 0o644)
 		fmt.Printf("  failed obligation GLOBALINV %s :: %s\n", g.Name, g.Detail)
 		violLines = append(violLines, fmt.Sprintf("VIOLATION property=%s replay=%s", id, rp))
+	}
+	for _, fk := range sortedKeys(vacuousFns) {
+		if ok, seen := passedFns[fk]; seen && !ok {
+			fmt.Printf("NOTE assumptions of %s are contradictory after its failed obligation(s): %s\n", fk, strings.Join(vacuousFns[fk], ", "))
+			continue
+		}
+		for _, n := range vacuousFns[fk] {
+			fmt.Printf("ERROR vacuous-precondition %s\n", n)
+		}
+		exit = 3
 	}
 	for _, l := range violLines {
 		fmt.Println(l)
